@@ -32,6 +32,7 @@ MODEL_INV = ["C_Tour", "C_BestTour", "C_Cost", "C_BsfLen", "C_BsfMin", "C_Mono",
 TRACE_INV = ["M_Cycle", "M_Prec", "M_Best", "M_Cost", "M_BsfLen", "M_BsfMin", "M_Mono", "M_Reward", "M_Sum",
              "D_Move", "D_Mask", "End"]
 JUMP = (-1,)
+MODEL_WORKERS = 5
 FLOAT_SCALE = 100000
 
 
@@ -99,9 +100,9 @@ def model_family(tier):
              ("kopt", 5, 3, 2, 1, 0), ("kopt", 6, 3, 1, 0, 0), ("kopt", 7, 4, 1, -1, 1), ("kopt", 6, 4, 1, -2, 0),
              ("pdp", 5, 0, 3, 0, 0), ("pdp", 5, 0, 2, -1, 0), ("pdp", 7, 0, 1, -1, 0)]
     else:
-        L = [("kopt", 5, 2, 3, 0, 0), ("kopt", 5, 2, 3, -1, 0), ("kopt", 6, 2, 2, 1, 0), ("kopt", 7, 2, 1, -1, 0),
+        L = [("kopt", 5, 2, 3, 0, 0), ("kopt", 5, 2, 2, -1, 0), ("kopt", 6, 2, 2, 1, 0), ("kopt", 7, 2, 1, -1, 0),
              ("kopt", 5, 3, 3, 1, 0), ("kopt", 6, 3, 2, 0, 0), ("kopt", 7, 3, 1, -1, 0),
-             ("kopt", 5, 4, 3, 2, 0), ("kopt", 6, 4, 2, -2, 0), ("kopt", 7, 4, 1, -1, 0), ("kopt", 8, 4, 1, -1, 1),
+             ("kopt", 6, 4, 2, -2, 0), ("kopt", 7, 4, 1, -1, 0), ("kopt", 8, 4, 1, -1, 1),
              ("pdp", 5, 0, 3, 0, 0), ("pdp", 5, 0, 3, -1, 0), ("pdp", 7, 0, 2, -1, 0), ("pdp", 7, 0, 1, -2, 0)]
     fam = []
     for (kind, n, K, depth, which, first) in L:
@@ -111,24 +112,49 @@ def model_family(tier):
     return fam
 
 
-def run_model(inst):
-    wd, root = prepare("c09_model_%d" % inst["id"], "Improve")
+def weight(inst):
+    """rough number of states of an instance (for balancing the TLC runs)"""
+    import math
+
+    n, d = inst["n"], inst["depth"]
+    if inst["kind"] == "pdp":
+        tours, moves = math.factorial(n - 1) // 2 ** (n // 2), (n // 2) * (n - 2) * (n - 1) // 2
+    else:
+        tours = math.factorial(n - 1) // ((n - 1) if inst["first"] else 1)
+        moves = n * (n - 1) if inst["K"] == 2 else n * (n - 3) * (n - 2) // 2
+    return tours * (moves + 1) ** d
+
+
+def run_model(group):
+    """one TLC run over a group of instances; returns the TLC result and per instance id the states and clause failures"""
+    gid = group[0]["id"]
+    wd, root = prepare("c09_model_%d" % gid, "Improve")
     f = os.path.join(wd, "family.json")
-    tlc.dump_json(f, [{k: v for k, v in inst.items() if k not in ("pts", "grid")}])
+    tlc.dump_json(f, [{k: v for k, v in inst.items() if k not in ("pts", "grid")} for inst in group])
     tlc.write_cfg(wd, root, invariants=MODEL_INV)
-    r = tlc.run(wd, root, workers=4, env={"FAMILY_FILE": f}, heap="4g")
+    r = tlc.run(wd, root, workers=MODEL_WORKERS, env={"FAMILY_FILE": f}, heap="6g")
     if r.violated:
         raise tlc.TLCError("Improve.tla: invariant %s halted TLC (clauses should only print)" % r.violated)
-    states = {}
+    states = {inst["id"]: {} for inst in group}
     for t in fast_tuples(r.out, "S"):
         _, iid, rec0, hist, cur, best, ccur, cbsf, rew = t
-        states[(tuple(rec0), tuple(tuple(a) for a in hist))] = (tuple(cur), tuple(best), ccur, cbsf, rew)
-    if len(states) != r.distinct:
-        raise tlc.TLCError("Improve.tla inst %d: parsed %d of %d states" % (inst["id"], len(states), r.distinct))
-    fails = {}
+        states[iid][(tuple(rec0), tuple(tuple(a) for a in hist))] = (tuple(cur), tuple(best), ccur, cbsf, rew)
+    if sum(len(v) for v in states.values()) != r.distinct:
+        raise tlc.TLCError("Improve.tla group %d: parsed %d of %d states" % (gid, sum(len(v) for v in states.values()), r.distinct))
+    fails = {inst["id"]: {} for inst in group}
     for t in tlc.parse_tuples(r.out, "MODELFAIL"):
-        fails.setdefault((tuple(t[3]), tuple(tuple(a) for a in t[4])), []).append(t[1])
+        fails[t[2]].setdefault((tuple(t[3]), tuple(tuple(a) for a in t[4])), []).append(t[1])
+    r.out = ""
     return r, states, fails
+
+
+def split_groups(fam, k):
+    groups, load = [[] for _ in range(k)], [0] * k
+    for inst in sorted(fam, key=weight, reverse=True):
+        j = load.index(min(load))
+        groups[j].append(inst)
+        load[j] += weight(inst)
+    return [g for g in groups if g]
 
 
 # ---------------------------------------------------------------------------------------------------------------
@@ -400,7 +426,7 @@ def record_guarded(cfg, seed, viol):
 
 def trace_configs(tier):
     q = tier == "quick"
-    rows, steps = (3, 120) if q else (6, 600)
+    rows, steps = (4, 200) if q else (8, 1500)
     L = []
     for exact in (True, False):
         for (kind, n, K) in [("kopt", 10, 2), ("kopt", 20, 2), ("kopt", 10, 3), ("kopt", 14, 3), ("kopt", 12, 4), ("kopt", 20, 4),
@@ -425,25 +451,31 @@ def trace_configs(tier):
 def validate(recs, tag, shards):
     n = len(recs)
     k = max(1, min(shards, n))
-    bounds = [(i * n) // k for i in range(k + 1)]
+    # balance the shards by work (steps x nodes)
+    load = [0] * k
+    parts = [[] for _ in range(k)]
+    for i in sorted(range(n), key=lambda i: -(len(recs[i]["ev"]) + 1) * recs[i]["n"] * max(1, recs[i]["K"] - 1)):
+        j = load.index(min(load))
+        parts[j].append(i)
+        load[j] += (len(recs[i]["ev"]) + 1) * recs[i]["n"] * max(1, recs[i]["K"] - 1)
     keep = ("kind", "n", "K", "D", "tol", "init", "ev")
 
     def one(j):
-        lo, hi = bounds[j], bounds[j + 1]
+        idx = parts[j]
         wd, root = prepare("c09_trace_%s_%d" % (tag, j), "ImproveTrace")
         f = os.path.join(wd, "recs.ndjson")
-        tlc.dump_ndjson(f, [{k_: r[k_] for k_ in keep} for r in recs[lo:hi]])
+        tlc.dump_ndjson(f, [{k_: recs[i][k_] for k_ in keep} for i in idx])
         tlc.write_cfg(wd, root, invariants=TRACE_INV)
         r = tlc.run(wd, root, workers=1, env={"TRACE_FILE": f}, heap="3g")
         if r.violated:
             raise tlc.TLCError("ImproveTrace: invariant %s halted TLC (monitors should only print)" % r.violated)
         os.remove(f)
-        return ([(lo + t[1] - 1, t[2], t[3]) for t in r.tuples("FAIL")],
-                [(lo + t[1] - 1, t[2], t[3]) for t in r.tuples("DRIFT")], r.distinct,
-                {lo + t[1] - 1 for t in r.tuples("END")})
+        return ([(idx[t[1] - 1], t[2], t[3]) for t in r.tuples("FAIL")],
+                [(idx[t[1] - 1], t[2], t[3]) for t in r.tuples("DRIFT")], r.distinct,
+                {idx[t[1] - 1] for t in r.tuples("END")})
 
     fails, drifts, states, ended = [], [], 0, set()
-    with cf.ThreadPoolExecutor(max_workers=min(k, 12)) as ex:
+    with cf.ThreadPoolExecutor(max_workers=k) as ex:
         for a, b, c, d in ex.map(one, range(k)):
             fails += a
             drifts += b
@@ -479,12 +511,18 @@ def run(tier, seed):
     states = trans = n_cmp = n_mask = n_sampled = n_mfail = 0
     cover = [0, 0]
     per_inst = []
-    with cf.ThreadPoolExecutor(max_workers=4) as ex:
-        results = list(ex.map(run_model, fam))
+    groups = split_groups(fam, 3 if quick else 6)
+    with cf.ThreadPoolExecutor(max_workers=len(groups)) as ex:
+        results = list(ex.map(run_model, groups))
     t1 = time.time()
-    for inst, (r, st, fails) in zip(fam, results):
+    by_id = {}
+    for (r, st_all, fails_all) in results:
         states += r.distinct
         trans += r.generated
+        for iid in st_all:
+            by_id[iid] = (st_all[iid], fails_all[iid])
+    for inst in fam:
+        st, fails = by_id[inst["id"]]
         n_mfail += sum(len(v) for v in fails.values())
         drift = sorted({c for v in fails.values() for c in v if c in ("move-meaning", "scatter-clash")})
         if drift:
@@ -496,7 +534,7 @@ def run(tier, seed):
         n_sampled += c
         cover[0] += cv[0]
         cover[1] += cv[1]
-        per_inst.append({"env": env_label(inst), "n": inst["n"], "depth": inst["depth"], "states": r.distinct,
+        per_inst.append({"env": env_label(inst), "n": inst["n"], "depth": inst["depth"], "states": len(st),
                          "grid": inst["grid"], "points": inst["pts"]})
     t2 = time.time()
     # ---- (3) recorded executions ----
@@ -504,7 +542,7 @@ def run(tier, seed):
     for i, cfg in enumerate(trace_configs(tier)):
         recs += record_guarded(cfg, seed * 7919 + i, viol)
     t3 = time.time()
-    fails, drifts, tstates = validate(recs, "q" if quick else "t", 12)
+    fails, drifts, tstates = validate(recs, "q" if quick else "t", 6 if quick else 14)
     seen = set()
     for (ri, clause, l) in sorted(fails, key=lambda f: (f[0], f[2])):
         if (ri, clause) in seen:
